@@ -182,8 +182,7 @@ let perrs (l : err list) =
 
 let ekx = function A "empty" -> KEmpty | A "cheap" -> KCheap | A "simple" -> KSimple | A "rich" -> KRich | _ -> failwith "ekind"
 
-(* span function per input kind *)
-let spn_plain (p1 : nat) (p2 : nat) : nat * nat = (p1, p2)
+(* span functions per input kind: extracted from coq/Model/Inputs.v (spn_plain, spn_mapped) *)
 
 let getenv_default k d = try Sys.getenv k with Not_found -> d
 let which = getenv_default "CHUM_WHICH" "go"
@@ -192,6 +191,8 @@ let quirks =
   let b i = String.length q > i && q.[i] = '1' in
   { q_zst_noop = b 0; q_look_trunc = b 1; q_trymap_drop = b 2; q_trymap_pos = b 3; q_maperr_drop = b 4;
     q_exact_noalt = b 5; q_emptychoice_none = b 6; q_memo_take = b 7; memo_on = b 8 }
+let q_mapped_empty =
+  let q = getenv_default "CHUM_QUIRKS" "000000011" in String.length q > 9 && q.[9] = '1'
 
 let run_line (line : string) =
   match parse_sx line with
@@ -211,16 +212,10 @@ let run_line (line : string) =
             (match inp with
              | L l ->
                let trip = List.map (function L [t; s; e] -> (num t, num s, num e) | _ -> failwith "mapped token") l in
-               let arr = Array.of_list trip in
-               let n = Array.length arr in
-               let eoi = if n = 0 then 3 else (let (_, _, e) = arr.(n - 1) in e + 2) in
-               let spn (p1 : nat) (p2 : nat) : nat * nat =
-                 let i1 = int_of_nat p1 and i2 = int_of_nat p2 in
-                 if i1 < n then
-                   (let (_, s, _) = arr.(i1) in
-                    let e = if i2 = 0 then eoi else (let (_, _, e) = arr.(min (i2 - 1) (n - 1)) in e) in
-                    (nat_of_int s, nat_of_int e))
-                 else (nat_of_int eoi, nat_of_int eoi) in
+               let n = List.length trip in
+               let eoi = if n = 0 then 3 else (let (_, _, e) = List.nth trip (n - 1) in e + 2) in
+               let spans = List.map (fun (_, s, e) -> (nat_of_int s, nat_of_int e)) trip in
+               let spn = spn_mapped q_mapped_empty spans (nat_of_int eoi) in
                (List.map (fun (t, _, _) -> n_of_int t) trip, spn)
              | _ -> failwith "mapped input")
           | _ -> failwith "ikind") in
